@@ -562,6 +562,12 @@ func (w *World) Alloc(n int, fill int) bool {
 		w.violate("alloc-count", "alloc-count", "AllocN(%d) returned %d pages", n, len(pages))
 		return false
 	}
+	for i, p := range pages {
+		if p == nil {
+			w.violate("alloc-count", "alloc-nil-page", "AllocN(%d) returned no error but page %d of the result is nil", n, i)
+			return false
+		}
+	}
 	var snap *txfile.VerifSnapshot
 	if w.Mon.Ownership {
 		s := w.F.VerifSnapshot()
